@@ -156,8 +156,9 @@ func parseV2List(it stackitem.Item) (cset, error) {
 	r := cset{}
 	for _, n := range arr {
 		f := world.Arr(n)
-		if len(f) != 4 {
-			return nil, fmt.Errorf("node2 with %d fields", len(f))
+		// a record is stored as it was announced: a trailing field some announcements carry (always "v2") stays what it was
+		if len(f) != 4 && !(len(f) == 5 && string(world.Bytes(f[4])) == "v2") {
+			return nil, fmt.Errorf("node2 with %d fields (or a changed trailing field)", len(f))
 		}
 		var addrs []string
 		for _, a := range world.Arr(f[0]) {
